@@ -279,7 +279,7 @@ func nameOf(reqs []*wl.Req, i int) string {
 func init() {
 	register(&Check{
 		ID: "C05", Bubble: true, Run: runC05,
-		Runs:   map[string]int{"quick": 5000, "thorough": 300000},
+		Runs:   map[string]int{"quick": 24000, "thorough": 800000},
 		Rule:   "a case is one run of 1..3 connections x 1..8 (thorough ..24) well-formed requests from the independent grammar (all 67 commands, option orders, binary arguments, letter-case variants, unknown and application-registered commands) under a seeded interleaving of the connections' sends/deliveries/server steps, seeded chunking and clock jumps (1 ms .. 400 days); distinct = distinct (shape, per-connection chunk sequence, interleaving count) signatures; non-trivial = more than one connection or a moving clock",
 		Real:   []string{"redis.Server connection loop, dispatch table, all executors, argument readers, proto parser"},
 		Stub:   []string{"transport: simulated net.Conn", "clock: synctest bubble clock advanced by the scheduler", "handler: recording double (user + auth handler)"},
